@@ -92,6 +92,9 @@ where
                 .await
                 {
                     Some(event) => {
+                        #[cfg(p2panda_p2panda_verif)]
+                        p2panda_core::verif::point("replay.before_send").await;
+
                         app_tx
                             .send(event)
                             .await
@@ -102,6 +105,9 @@ where
             }
         }
     }
+
+    #[cfg(p2panda_p2panda_verif)]
+    p2panda_core::verif::point("replay.before_ended").await;
 
     app_tx
         .send(StreamEvent::ReplayEnded)
